@@ -227,7 +227,8 @@ class WeightedForest(Forest):
             lst[i] = np.array([i], np.int_)
         for i in range(self.V - 1):
             j = self.parents[i]
-            lst[j] = np.hstack((lst[i], lst[j]))
+            if j != i:
+                lst[j] = np.hstack((lst[i], lst[j]))
 
         return lst[n:self.V]
 
